@@ -15,7 +15,7 @@ from tartiflette import Directive, Engine, Scalar, create_engine
 ID = "C12"
 LEVEL = "fault_enumeration"
 WORKERS = {"quick": 8, "thorough": 16}
-CASES = {"quick": 64, "thorough": 3000}  # carriers; every rewrite at every site (capped)
+CASES = {"quick": 52, "thorough": 3000}  # carriers; every rewrite at every site (capped)
 BUDGET = {"quick": 50, "thorough": 560}
 MAX_MUTANTS = 120
 RULE = (
